@@ -1,7 +1,10 @@
 //! C13: src/metrics.rs against the model.
-//! input  = (fn cfg data raw)   see C13_Model.v; `data` holds what the model reads (for the text
-//!          functions: the cluster lists of normalize(clean(s)) under the requested use_graphemes),
-//!          `raw` the unprocessed strings the implementation is called with
+//! input  = (fn cfg data raw kf)   see C13_Model.v; `data` is the ORACLE (for the text functions: the cluster
+//!          lists of the real normalize(clean(s)) under the requested use_graphemes), `raw` the unprocessed
+//!          strings the implementation is called with — the model computes clean + NFKC + segmentation from
+//!          them itself and `agree` demands that the result is `data`; `kf` (fn 3/4): per raw text the pair
+//!          (kf3_free class): kf3_free by the transliteration below of C13_Model.kf3_free, class with the real
+//!          crate — `agree` demands that both are the model's. Older 4-field inputs are canonicalised.
 //! output = (0 x) | (1) Err | (-777) panic
 //! Every f64 crosses as its bit fields (k s m e): k = 0 zero, 1 finite non-zero (value m * 2^e with the
 //! canonical mantissa), 2 infinity, 3 NaN; s = sign bit.  beta in cfg is such a 4-list (older corpus files:
@@ -14,6 +17,9 @@ use text_utils::text::clean;
 use text_utils::unicode::{normalize, CharString, Normalization};
 use text_utils::whitespace::Operation;
 use vh::*;
+
+#[path = "../seam.rs"]
+mod seam;
 
 struct C13;
 
@@ -96,6 +102,35 @@ fn has_mixed_cluster(s: &str, g: bool) -> bool {
 /// KF3: normalize(clean(s)) is not whitespace-clean, or has a cluster mixing whitespace and non-whitespace
 fn kf3(t: &str, g: bool) -> bool {
     clean(t, g) != t || clean(t, false) != t || has_mixed_cluster(t, g)
+}
+
+/// NFKC_Model.nfkc_makes_space: the 52 code points that are not White_Space but whose NFKC contains White_Space
+const MAKES_SPACE: &[u32] = &[
+    0xA8, 0xAF, 0xB4, 0xB8, 0x2D8, 0x2D9, 0x2DA, 0x2DB, 0x2DC, 0x2DD, 0x37A, 0x384, 0x385, 0x1FBD, 0x1FBF, 0x1FC0,
+    0x1FC1, 0x1FCD, 0x1FCE, 0x1FCF, 0x1FDD, 0x1FDE, 0x1FDF, 0x1FED, 0x1FEE, 0x1FFD, 0x1FFE, 0x2017, 0x203E, 0x309B,
+    0x309C, 0xFC5E, 0xFC5F, 0xFC60, 0xFC61, 0xFC62, 0xFC63, 0xFDFA, 0xFDFB, 0xFE49, 0xFE4A, 0xFE4B, 0xFE4C, 0xFE70,
+    0xFE72, 0xFE74, 0xFE76, 0xFE78, 0xFE7A, 0xFE7C, 0xFE7E, 0xFFE3,
+];
+
+/// C13_Model.kf3_free, transliterated: decided on the RAW text alone, no normalisation is run.
+/// Not trusted: the flag travels in the input and `agree` compares it with the model's.
+fn kf3_free(s: &str, g: bool) -> bool {
+    if has_mixed_cluster(s, true) {
+        return false;
+    }
+    if s.chars().any(|c| MAKES_SPACE.contains(&(c as u32))) {
+        return false;
+    }
+    if g {
+        let words: Vec<&str> = s.split_whitespace().collect();
+        for w in words.windows(2) {
+            let (a, b) = (w[0].chars().last().unwrap(), w[1].chars().next().unwrap());
+            if seam::is_prepend(a) || seam::ws_joinable(b) {
+                return false;
+            }
+        }
+    }
+    true
 }
 
 const BETAS: &[(i64, i64)] = &[(1, 1), (1, 1), (1, 1), (1, 2), (2, 1), (0, 1), (1, 4), (3, 1), (3, 2)];
@@ -294,8 +329,22 @@ fn build(f: i64, cfg: Vec<Val>, raw: Vec<Val>) -> Option<Val> {
         }
         _ => return None,
     };
+    let kf = if f == 3 || f == 4 {
+        let g = cfg.get(if f == 3 { 3 } else { 2 })?.as_bool()?;
+        Val::L(
+            raw.iter()
+                .map(|l| {
+                    Some(Val::list(val_strs(l)?.iter(), |s| {
+                        Val::L(vec![Val::b(kf3_free(s, g)), Val::b(kf3(&prep(s), g))])
+                    }))
+                })
+                .collect::<Option<Vec<_>>>()?,
+        )
+    } else {
+        Val::L(vec![])
+    };
     let raw = if f <= 1 { Val::L(vec![]) } else { Val::L(raw) };
-    Some(Val::L(vec![Val::I(f), Val::L(cfg), data, raw]))
+    Some(Val::L(vec![Val::I(f), Val::L(cfg), data, raw, kf]))
 }
 
 fn gen_triples(rng: &mut Rng, spelling: bool, kf3_stream: bool) -> (Vec<String>, Vec<String>, Vec<String>) {
@@ -313,7 +362,28 @@ fn gen_triples(rng: &mut Rng, spelling: bool, kf3_stream: bool) -> (Vec<String>,
         let mut tw = gen_words(rng, 5);
         if kf3_stream && !tw.is_empty() {
             let i = rng.below(tw.len());
-            let u = *rng.pick(NFKC_SPACE);
+            // half of the time any of the 52 code points of the set, else the frequent ones
+            let any: String;
+            let u: &str = if rng.chance(1, 2) {
+                any = char::from_u32(*rng.pick(MAKES_SPACE)).unwrap().to_string();
+                &any
+            } else {
+                *rng.pick(NFKC_SPACE)
+            };
+            tw[i] = match rng.below(3) {
+                0 => u.to_string(),
+                1 => format!("{}{}", tw[i], u),
+                _ => format!("{}{}", u, tw[i]),
+            };
+        }
+        if !tw.is_empty() && rng.chance(1, 14) {
+            // seam stream: a word that begins with an attaching code point (Extend, SpacingMark, ZWJ; also ones
+            // whose NFKC differs: U+FF9E -> U+3099, U+0E33 -> U+0E4D U+0E32) or ends in a Prepend — in grapheme mode
+            // the U+0020 written by clean joins it (outside kf3_free); a lone mark after a space in the raw text
+            // makes a mixed raw cluster
+            const SEAM: &[&str] = &["\u{301}", "\u{93e}", "\u{200d}", "\u{600}", "\u{ff9e}", "\u{e33}", "\u{110bd}", "\u{d4e}"];
+            let i = rng.below(tw.len());
+            let u = *rng.pick(SEAM);
             tw[i] = match rng.below(3) {
                 0 => u.to_string(),
                 1 => format!("{}{}", tw[i], u),
@@ -395,11 +465,81 @@ fn gen_triples(rng: &mut Rng, spelling: bool, kf3_stream: bool) -> (Vec<String>,
     (ins, prs, tgs)
 }
 
+/// LONG lists (1 case in 20): n in {257, 300, 511, 513, 700, 1000, 3000} items for every list-taking metric. The items
+/// repeat a few distinct short pairs / triples; their order is uneven (a long identical prefix then different ones,
+/// blocks, or random), so that a mean computed per block and then averaged differs from the mean over all items.
+fn gen_long(rng: &mut Rng, beta: f64, g: bool) -> Option<Val> {
+    let n = *rng.pick(&[257usize, 257, 300, 300, 511, 513, 513, 700, 1000, 3000]);
+    // index pattern over `m` distinct items
+    let pattern = |rng: &mut Rng, m: usize| -> Vec<usize> {
+        match rng.below(3) {
+            0 => (0..n).map(|i| if i < 256 { 0 } else { 1 + (i % (m - 1).max(1)) % m }).collect(),
+            1 => {
+                let b = *rng.pick(&[64usize, 100, 256, 300]);
+                (0..n).map(|i| (i / b) % m).collect()
+            }
+            _ => {
+                let skew = rng.range(1, 6);
+                (0..n).map(|_| if rng.chance(skew, 7) { 0 } else { rng.below(m) }).collect()
+            }
+        }
+    };
+    match rng.below(6) {
+        0 | 1 => {
+            // mean (normalised) edit distance: rayon's sum, judged by the rational model for n > 32
+            const PAIRS: &[(&str, &str)] = &[("ab", "ab"), ("ab", "xyz"), ("a", "abcd"), ("", "abc"), ("a b", "ab"), ("é", "e\u{301}")];
+            let m = rng.range(2, PAIRS.len());
+            let idx = pattern(rng, m);
+            let a: Vec<String> = idx.iter().map(|i| PAIRS[*i].0.to_string()).collect();
+            let b: Vec<String> = idx.iter().map(|i| PAIRS[*i].1.to_string()).collect();
+            build(2, vec![Val::b(rng.chance(1, 2)), Val::b(g)], vec![strs_val(&a), strs_val(&b)])
+        }
+        2 => {
+            let idx = pattern(rng, 3);
+            let p: Vec<Val> = idx.iter().map(|i| Val::I(*i as i64)).collect();
+            let t: Vec<Val> = idx.iter().enumerate().map(|(k, i)| Val::I(if k % 7 == 3 { 2 } else { *i as i64 % 2 })).collect();
+            build(1, vec![], vec![Val::L(p), Val::L(t)])
+        }
+        3 => {
+            let idx = pattern(rng, 4);
+            let p: Vec<Val> = idx.iter().map(|i| Val::b(i % 2 == 1)).collect();
+            let t: Vec<Val> = idx.iter().map(|i| Val::b(*i >= 2)).collect();
+            build(0, vec![beta_val(beta)], vec![Val::L(p), Val::L(t)])
+        }
+        k => {
+            // the two F1 functions, micro and sequence-averaged: a few distinct short triples, repeated
+            const TRIPLES: &[(&str, &str, &str)] = &[
+                ("a b", "a b", "a b"),
+                ("ab c", "a b c", "a bc"),
+                ("ax b", "a b", "a b"),
+                ("a b", "ab", "a b"),
+                ("abc", "a b c", "ab c"),
+                ("ax bx", "ax b", "a b"),
+                ("a", "", "a"),
+            ];
+            let m = rng.range(2, TRIPLES.len());
+            let idx = pattern(rng, m);
+            let i: Vec<String> = idx.iter().map(|k| TRIPLES[*k].0.to_string()).collect();
+            let p: Vec<String> = idx.iter().map(|k| TRIPLES[*k].1.to_string()).collect();
+            let t: Vec<String> = idx.iter().map(|k| TRIPLES[*k].2.to_string()).collect();
+            let sa = rng.chance(1, 2);
+            if k == 4 {
+                build(3, vec![beta_val(beta), Val::b(sa), Val::I(rng.below(3) as i64), Val::b(g)], vec![strs_val(&i), strs_val(&p), strs_val(&t)])
+            } else {
+                build(4, vec![beta_val(beta), Val::b(sa), Val::b(g)], vec![strs_val(&i), strs_val(&p), strs_val(&t)])
+            }
+        }
+    }
+}
+
 impl Prop for C13 {
     fn gen(&mut self, rng: &mut Rng, _tier: Tier, _i: usize, _n: usize) -> Val {
         let k = rng.below(100);
         let beta = gen_beta(rng);
         let g = rng.chance(1, 2);
+        if rng.chance(1, 20) {
+            return gen_long(rng, beta, g).expect("generator builds valid inputs");
+        }
         let v = if k < 4 {
             let n = rng.below(9);
             let m = if rng.chance(1, 8) { rng.below(9) } else { n };
@@ -496,7 +636,7 @@ impl Prop for C13 {
 
     fn run(&mut self, input: &Val) -> Option<(Val, Vec<String>)> {
         let l = input.as_l()?;
-        if l.len() != 4 {
+        if l.len() != 5 {
             return None;
         }
         let f = l[0].as_i()?;
@@ -581,8 +721,31 @@ impl Prop for C13 {
                 tags.push(if g { "g".into() } else { "cp".into() });
                 tags.push(if seq_avg { "seqavg".into() } else { "micro".into() });
                 let (i, p, t) = (val_strs(raw.first()?)?, val_strs(raw.get(1)?)?, val_strs(raw.get(2)?)?);
-                if i.iter().chain(p.iter()).chain(t.iter()).any(|s| kf3(&prep(s), g)) {
-                    tags.push("class:KF3".into());
+                // KF3 cross-check. `class` is decided with the real crate on the prepared texts (as before);
+                // `free` = C13_Model.kf3_free on the raw texts. Inside the domain of the theorem check_run_n
+                // (whitespace F1: every input; spelling F1: every input and every prediction kf3_free) the
+                // class tag is WITHHELD, so that a failure there is reported as a violation.
+                let class = i.iter().chain(p.iter()).chain(t.iter()).any(|s| kf3(&prep(s), g));
+                let free_ip = i.iter().chain(p.iter()).all(|s| kf3_free(s, g));
+                let free_all = free_ip && t.iter().all(|s| kf3_free(s, g));
+                let domain = f == 3 || free_ip;
+                if free_all {
+                    tags.push("kf3free".into());
+                }
+                if domain {
+                    tags.push("kf3dom".into());
+                }
+                if class {
+                    tags.push("kf3class".into());
+                    if free_all {
+                        // excluded by the theorem kf3_free_not_class (and `agree` fails on it)
+                        tags.push("kf3free+class".into());
+                    }
+                    if domain {
+                        tags.push("kf3class-withheld".into());
+                    } else {
+                        tags.push("class:KF3".into());
+                    }
                 }
                 if i.len() > 1 {
                     tags.push("multi".into());
@@ -640,6 +803,9 @@ impl Prop for C13 {
             }
             _ => return None,
         };
+        if raw.first().and_then(|l| l.as_l()).map_or(0, |l| l.len()) > 32 {
+            tags.push("long".into());
+        }
         match out.as_l() {
             Some([Val::I(1)]) => tags.push("err".into()),
             Some([Val::I(-777)]) => tags.push("panic".into()),
